@@ -54,7 +54,7 @@ Lemma tbatch_batch s s' : reach s -> tbatch s s' -> good ub (pw_reqs (world s'))
 Proof.
   intros R H. revert R. induction H as [s|s s' _ IH|s h s' Hh Hl Ht Hb IH]; intros R Hg.
   - apply b_nil.
-  - apply IH; [apply r_discard, R|exact Hg].
+  - apply IH; [apply rc_discard, R|exact Hg].
   - destruct (tbatch_reqs _ _ Hb) as [l1 H1]. destruct (pend_step_reqs cfg oracle orders h s) as [l2 H2].
     assert (Hg0 : good ub (pw_reqs (world s))).
     { rewrite H1, H2 in Hg. eapply good_app, good_app. exact Hg. }
@@ -67,7 +67,7 @@ Proof.
       * unfold ptime. rewrite En. cbn. rewrite HT. reflexivity.
       * apply (refire_at s h n R Hh Hl Ht He).
       * intros m Hm. apply (cascade_functional s h n R Hh Hl Ht He m Hm).
-    + apply IH; [apply r_event; assumption|exact Hg].
+    + apply IH; [apply rc_event; assumption|exact Hg].
 Qed.
 
 Lemma optQ_dec (a b : option Q) : {a = b} + {a <> b}.
